@@ -789,7 +789,8 @@ func panicSite(stack string) string {
 	return "?"
 }
 
-var skipFields = map[string]bool{}
+// the path of a file history is a per-worker scratch name, not editor state
+var skipFields = map[string]bool{"history.fileHistory.file": true}
 
 func (w *worker) stateHash(sh *readline.Shell, withScreen bool) string {
 	h, _ := dump.Hash(sh, skipFields)
